@@ -15,6 +15,7 @@
 EXTENDS AbiGen
 
 CONSTANTS ArgCounts,     \* set of argument counts
+          SingleCounts,  \* argument counts of the lists with one special value
           RotStep        \* rotations of the kind table: offsets 0, RotStep, ...
 
 (***************************************************************************)
@@ -226,7 +227,7 @@ ArgLists(abi) ==
                    k \in DOMAIN SingleKinds(abi),
                    p \in {q \in {1, Len(DefaultConv(abi).regs), Len(DefaultConv(abi).regs) + 1, n} :
                             q >= 1 /\ q <= n}}
-                : n \in ArgCounts \ {0}}
+                : n \in SingleCounts}
 
 \* calling conventions: the default and custom ones
 CustomRegs(abi) ==
@@ -273,13 +274,12 @@ CallBase == UNION {{MkCall(abi, args, Conv(FALSE, <<>>, 16, 0, TRUE),
                 THEN {MkCall("mips32", <<>>, Conv(FALSE, <<>>, 16, 0, TRUE),
                              <<TRUE, TRUE, FALSE, TRUE, 0, TRUE>>)} ELSE {})
 
-NoCPred == NoCallPred("")
 CProgram(p) == IF p.exc # "" THEN <<>>
                ELSE p.pro \o <<E0("bodyentry")>> \o p.body \o <<E0("bodyexit")>> \o p.epi \o <<E0("end")>>
 
 CInit ==
   /\ cfg \in CallBase
-  /\ pred = NoCPred
+  /\ pred = NoPred
   /\ prog = <<>>
   /\ pc = 0
   /\ MInit(ParamsC17(cfg, 0, TRUE, 0))
@@ -287,16 +287,18 @@ CInit ==
 CLoad ==
   /\ pc = 0
   /\ \E cv \in (IF cfg.abi = "mips32" THEN {Conv(FALSE, <<>>, 16, 0, TRUE)} ELSE Convs(cfg.abi)),
-        k \in (IF cfg.abi = "mips32" THEN {<<TRUE, TRUE, FALSE, TRUE, 0, TRUE>>} ELSE Cons(cfg.abi)),
-        a \in StartAligns(cfg.abi) :
+        k \in (IF cfg.abi = "mips32" THEN {<<TRUE, TRUE, FALSE, TRUE, 0, TRUE>>} ELSE Cons(cfg.abi)) :
+        \* (without align_stack only the aligned start is in the domain of the
+        \* alignment clause and everything else is translation invariant)
+        \E a \in RelevantAligns(cfg.abi, k[3]) :
         \E c \in {MkCall(cfg.abi, cfg.args, cv, k)} :
         \E p \in {CallPredict(c)} :
             /\ cfg' = c
-            /\ pred' = p
+            /\ pred' = Meta(p)
             /\ prog' = CProgram(p)
             /\ pc' = 1
             /\ MLoad(ParamsC17(c, a, p.adjknown, p.adj))
-            /\ (Emit /\ \A b \in StartAligns(c.abi) : a <= b) => PrintT("CASE " \o ToJson(c))
+            /\ (Emit /\ \A b \in RelevantAligns(c.abi, c.align) : a <= b) => PrintT("CASE " \o ToJson(c))
 
 CNext == CLoad \/ Step
 CSpec == CInit /\ [][CNext]_vars
